@@ -290,10 +290,9 @@ Proof.
   rewrite Hrun2. f_equal. f_equal.
   (* the keys did not move, so the second sort orders as the first; a sorted list is left alone *)
   assert (forall a b, hle h1 cs a b = hle h cs a b) as Hle.
-  { intros a b. unfold hle. rewrite Eh1.
-    change (keyof _ a) with (keyof (with_dat (with_lnk h (h_lnk h1)) (<[o:=nd_set_child d (head l1)]> (h_dat h))) a).
-    change (keyof _ b) with (keyof (with_dat (with_lnk h (h_lnk h1)) (<[o:=nd_set_child d (head l1)]> (h_dat h))) b) at 1.
-    rewrite !(keyof_with_dat (with_lnk h (h_lnk h1)) o d) by exact Hd. reflexivity. }
+  { assert (forall a, keyof h1 a = keyof h a) as Hk.
+    { intros a. rewrite Eh1. exact (keyof_with_dat (with_lnk h (h_lnk h1)) o d (head l1) a Hd). }
+    intros a b. unfold hle. rewrite !Hk. reflexivity. }
   assert (isort (hle h1 cs) l1 = l1) as Hl2.
   { rewrite (isort_ext _ _ _ Hle). apply (isort_idem _ (hle_total h cs)). }
   rewrite Hl2 in *.
@@ -301,9 +300,13 @@ Proof.
   { apply map_eq. intros z. destruct (decide (z ∈ l1)) as [Hz|Hz].
     - rewrite (co_links _ _ _ Hco2 z Hz), (co_links _ _ _ Hco1 z Hz). reflexivity.
     - apply Hfr2. exact Hz. }
-  rewrite Eh2, Elnk. rewrite Eh1 at 2 3 4 5 6 7 8 9.
-  cbn [h_dat h_str h_own h_live h_next h_req h_hooks h_trace].
-  rewrite Eh1 in Hd1. cbn [h_dat] in Hd1. rewrite lookup_insert in Hd1. injection Hd1 as <-.
-  cbn [nd_set_child nd_type nd_vstr nd_vint nd_vdbl nd_key]. rewrite insert_insert.
-  rewrite Eh1 at 1. reflexivity.
+  pose proof (f_equal h_dat Eh1) as Hdat. pose proof (f_equal h_str Eh1) as Hstr.
+  pose proof (f_equal h_own Eh1) as Hown. pose proof (f_equal h_live Eh1) as Hliv.
+  pose proof (f_equal h_next Eh1) as Hnxt. pose proof (f_equal h_req Eh1) as Hreq.
+  pose proof (f_equal h_hooks Eh1) as Hhk. pose proof (f_equal h_trace Eh1) as Htr.
+  cbn [h_dat h_str h_own h_live h_next h_req h_hooks h_trace] in Hdat, Hstr, Hown, Hliv, Hnxt, Hreq, Hhk, Htr.
+  rewrite Hdat, lookup_insert in Hd1. injection Hd1 as <-.
+  rewrite Eh2, Elnk, Hdat, Hstr, Hown, Hliv, Hnxt, Hreq, Hhk, Htr.
+  etransitivity; [|symmetry; exact Eh1].
+  rewrite insert_insert. reflexivity.
 Qed.
